@@ -12,7 +12,7 @@ package diam
 //@ func uint24to32(b) (r)
 //@   property C01 C02 C03
 //@   pure
-//@   ensures [C02] be24: len(b) == 3 ==> r == be24(b, 0)
+//@   ensures [C01 C02] be24: len(b) == 3 ==> r == be24(b, 0)
 //@   ensures range: r < 1<<24
 //@ end
 //@
@@ -20,7 +20,7 @@ package diam
 //@   property C01 C02 C03
 //@   modifies
 //@   ensures shape: len(r) == 3 && fresh(r)
-//@   ensures [C02] be24: be24(r, 0) == n & 0xffffff
+//@   ensures [C01 C02] be24: be24(r, 0) == n & 0xffffff
 //@ end
 //@
 //@ # ======================= header.go =======================================
@@ -62,14 +62,14 @@ package diam
 //@   property C01 C02 C03 C04
 //@   pure
 //@   requires a != nil
-//@   ensures [C02] rfc: r == hdrlen(a.Flags)
+//@   ensures [C01 C02] rfc: r == hdrlen(a.Flags)
 //@ end
 //@
 //@ func (*AVP).Len(a) (r)
 //@   property C01 C02 C03 C04
 //@   pure
 //@   requires a != nil && a.Data != nil && deepvalid(a.Data)
-//@   ensures [C02] rfc: r == avplen(a)
+//@   ensures [C01 C02] rfc: r == avplen(a)
 //@ end
 //@
 //@ func NewAVP(code, flags, vendor, data) (a)
@@ -77,8 +77,8 @@ package diam
 //@   modifies
 //@   requires data != nil && deepvalid(data)
 //@   ensures fields: a != nil && fresh(a) && a.Code == code && a.VendorID == vendor && a.Data == data
-//@   ensures [C02] vflag: a.Flags == (vendor > 0 ? flags | 0x80 : flags)
-//@   ensures [C02] length: flags & 0x80 == 0x80 || vendor == 0 ==> a.Length == hdrlen(a.Flags) + dlen(data)
+//@   ensures [C01 C02] vflag: a.Flags == (vendor > 0 ? flags | 0x80 : flags)
+//@   ensures [C01 C02] length: flags & 0x80 == 0x80 || vendor == 0 ==> a.Length == hdrlen(a.Flags) + dlen(data)
 //@ end
 //@
 //@ func (*AVP).DecodeFromBytes(a, data, application, dictionary) (err)
@@ -169,11 +169,11 @@ package diam
 //@   ensures [C01 C02] length: err == nil ==> int(be24(b, 5)) == hdrlen(a.Flags) + old(dlen(a.Data))
 //@   ensures [C01 C02] vendor: err == nil && a.Flags & 0x80 == 0x80 ==> be32(b, 8) == a.VendorID
 //@   ensures [C01 C02 thorough] payload: err == nil && !typeis(a.Data, *GroupedAVP) ==> forall i int :: 0 <= i && i < dlen(a.Data) ==> b[hdrlen(a.Flags) + i] == old(dbyte(a.Data, i))
-//@   ensures [C02 thorough] padding: err == nil ==> forall i int :: 0 <= i && i < dpad(a.Data) ==> b[hdrlen(a.Flags) + dlen(a.Data) + i] == 0
+//@   ensures [C01 C02 thorough] padding: err == nil ==> forall i int :: 0 <= i && i < dpad(a.Data) ==> b[hdrlen(a.Flags) + dlen(a.Data) + i] == 0
 //@   loop 0
 //@     modifies b[0:dpad(a.Data)]
 //@     invariant 0 <= i && i <= dpad(a.Data)
-//@     invariant [C02 thorough] zeroed: forall j int :: 0 <= j && j < i ==> b[j] == 0
+//@     invariant [C01 C02 thorough] zeroed: forall j int :: 0 <= j && j < i ==> b[j] == 0
 //@   end
 //@ end
 //@
@@ -184,10 +184,10 @@ package diam
 //@   implements datatype.Type.Len
 //@   requires g != nil && wf(g.AVP)
 //@   hint wf.def(g.AVP)
-//@   ensures [C02] sum: r == sumlen(g.AVP, len(g.AVP))
+//@   ensures [C01 C02] sum: r == sumlen(g.AVP, len(g.AVP))
 //@   loop 0
 //@     invariant 0 - 1 <= rangeindex && rangeindex < len(g.AVP)
-//@     invariant [C02] partial: l == sumlen(g.AVP, rangeindex + 1)
+//@     invariant [C01 C02] partial: l == sumlen(g.AVP, rangeindex + 1)
 //@     hint sumlen.unfold(g.AVP, rangeindex + 2)
 //@   end
 //@ end
@@ -197,10 +197,10 @@ package diam
 //@   pure
 //@   requires m != nil && wf(m.AVP)
 //@   hint wf.def(m.AVP)
-//@   ensures [C02] sum: r == 20 + sumlen(m.AVP, len(m.AVP))
+//@   ensures [C01 C02] sum: r == 20 + sumlen(m.AVP, len(m.AVP))
 //@   loop 0
 //@     invariant 0 - 1 <= rangeindex && rangeindex < len(m.AVP)
-//@     invariant [C02] partial: l == 20 + sumlen(m.AVP, rangeindex + 1)
+//@     invariant [C01 C02] partial: l == 20 + sumlen(m.AVP, rangeindex + 1)
 //@     hint sumlen.unfold(m.AVP, rangeindex + 2)
 //@   end
 //@ end
